@@ -56,6 +56,17 @@ def one_journal(src, mexe, idx, seed, tier):
         if len(txns) >= 1:
             break
         txns, note = c03.gen_txns(r, cfg0, targets)
+    if idx % 4 == 1:
+        # every replayed block leaves the 8-entry block cache before recovery syncs: one transaction carries the data,
+        # then enough revoke-only transactions (two journal reads each) follow to recycle the whole cache
+        extra = jimg.free_blocks(len(targets) + 8, r)
+        extra = [b for b in extra if b not in targets][:8]
+        nrep = r.randint(1, min(3, len(targets)))
+        tags = [{"blk": t, "data": (bytes([0x40 + i]) * 16 + struct.pack(">II", seq0, t)).ljust(jimg.bs, bytes([0x51 + i]))} for i, t in enumerate(targets[:nrep])]
+        txns = [{"seq": seq0, "items": [("D", tags)], "commit": {"time": 1700000000}}]
+        for i in range(r.choice([4, 5, 6, 8])):
+            txns.append({"seq": (seq0 + 1 + i) & 0xFFFFFFFF, "items": [("R", [extra[i % len(extra)]])], "commit": {"time": 1700000001 + i}})
+        note = "data transaction followed by %d revoke-only transactions" % (len(txns) - 1)
     os.makedirs(WORK, exist_ok=True)
     a = os.path.join(WORK, "j%d.img" % idx)
     cfg, views = c03.prepare(jimg, inc, seq0, start_rel, txns, a)
@@ -139,6 +150,156 @@ def one_journal(src, mexe, idx, seed, tier):
         [(e[0], e[1] // bs if e[0] == "W" else None) for e in ev[:seg_end]]
 
 
+XUUID = "1db3f677-6832-4adb-bafc-8e4059c30a34"
+
+
+def two_file_crash_states(base_fs, base_j, ev, upto):
+    """crash states of (filesystem file, journal file) after ev[:upto]: an fsync makes the earlier writes of ITS file durable;
+    later writes of either file may be lost independently"""
+    last = {"F": -1, "f": -1}
+    for i in range(upto):
+        if ev[i][0] in last:
+            last[ev[i][0]] = i
+
+    def split(wop, fop, base):
+        d = bytearray(base)
+        for e in ev[:last[fop] + 1]:
+            if e[0] == wop:
+                d[e[1]:e[1] + len(e[2])] = e[2]
+        return d, [e for e in ev[last[fop] + 1:upto] if e[0] == wop]
+    dfs, pfs = split("W", "F", base_fs)
+    dj, pj = split("w", "f", base_j)
+
+    def apply(d, ws):
+        d = bytearray(d)
+        for e in ws:
+            d[e[1]:e[1] + len(e[2])] = e[2]
+        return bytes(d)
+    out = [("fs kept, journal kept", apply(dfs, pfs), apply(dj, pj))]
+    if pfs:
+        out.append(("fs unflushed writes lost, journal kept", bytes(dfs), apply(dj, pj)))
+    if pj:
+        out.append(("fs kept, journal unflushed writes lost", apply(dfs, pfs), bytes(dj)))
+    if pfs and pj:
+        out.append(("both lost", bytes(dfs), bytes(dj)))
+    if len(pfs) > 1:
+        for i in range(min(len(pfs), 4)):
+            out.append(("fs write %d lost, journal kept" % i, apply(dfs, pfs[:i] + pfs[i + 1:]), apply(dj, pj)))
+    return out
+
+
+def ext_journal_case(src, idx, seed, tier):
+    """recovery from an EXTERNAL journal: two devices, two flush domains"""
+    r = e2v.rng(seed, "c04x", idx)
+    env = e2v.tool_env(src)
+    T = lambda p: os.path.join(src, p)
+    bs = r.choice([1024, 4096])
+    fsimg = os.path.join(WORK, "x%d_fs.img" % idx)
+    jimg = os.path.join(WORK, "x%d_jnl.img" % idx)
+    for p in (fsimg, jimg):
+        if os.path.exists(p):
+            os.unlink(p)
+    e2v.sh([T("misc/mke2fs"), "-q", "-F", "-b", str(bs), "-O", "journal_dev", "-U", XUUID, jimg, "4096"], env=env, timeout=120)
+    # two groups (a backup superblock exists) with checksums, or one group without: the field-by-field update of the primary
+    # superblock is not one write call, and a single-group filesystem has nothing to fall back on when it is torn
+    e2v.sh([T("misc/mke2fs"), "-q", "-F", "-t", "ext4", "-b", str(bs), "-O", "^has_journal" + (",^metadata_csum" if bs == 4096 else ""), fsimg, "16384" if bs == 1024 else "8192"], env=env, timeout=120)
+    e2v.sh([T("debugfs/debugfs"), "-w", "-f", "-", fsimg], input=("feature has_journal\nssv journal_dev 0x9999\nssv journal_uuid %s\n" % XUUID).encode(), env=env, timeout=60)
+    cmd = [T("e2fsck/e2fsck"), "-fy", "-j", jimg, fsimg]
+    rc, out = e2v.sh(cmd, env=env, timeout=120)
+    recipe = {"kind": "external journal", "block_size": bs, "case_index": idx}
+    if rc & ~1:
+        return recipe, ["could not set up a filesystem with an external journal: e2fsck exit %d" % rc], {"events": 0, "segment": 0, "crash_runs": 0, "verdict": "-", "ntx": 0}, []
+    fs = extfmt.Fs(fsimg)
+    free = []
+    for g, gd in enumerate(fs.groups):
+        if gd["flags"] & extfmt.BG_BLOCK_UNINIT:
+            continue
+        bm = fs.block(gd["block_bitmap"])
+        b0 = fs.group_first_block(g)
+        free += [b0 + i for i in range(min(fs.blocks_per_group, fs.blocks_count - b0)) if not (bm[i >> 3] >> (i & 7)) & 1]
+    r.shuffle(free)
+    targets, extra = sorted(free[:r.randint(2, 6)]), free[10:20]
+    shape = idx % 3
+    script, txd = [], []
+    ntx = 1 if shape == 0 else r.randint(1, 4)
+    for t in range(ntx):
+        blks = sorted(r.sample(targets, r.randint(1, len(targets))))
+        df = os.path.join(WORK, "x%d_data%d" % (idx, t))
+        with open(df, "wb") as f:
+            for b in blks:
+                f.write((b"C04 txn %d block %d " % (t, b)).ljust(bs, bytes([0x30 + t])))
+        script += ["jo -f %s" % jimg, "jw -b %s %s" % (",".join(map(str, blks)), df)]
+        if shape == 2 and r.random() < 0.4:
+            script.append("jw -r %d" % r.choice(extra))
+        script.append("jc")
+        txd.append({"write": blks})
+    if shape == 1:
+        for i in range(r.choice([4, 5, 6])):
+            script += ["jo -f %s" % jimg, "jw -r %d" % extra[i], "jc"]
+            txd.append({"revoke": [extra[i]]})
+    rc, out = e2v.sh([T("debugfs/debugfs"), "-w", "-f", "-", fsimg], input=("\n".join(script) + "\n").encode(), env=env, timeout=120)
+    recipe["transactions"] = txd
+    base_fs, base_j = open(fsimg, "rb").read(), open(jimg, "rb").read()
+    jsb_off = (2 if bs == 1024 else 1) * bs
+    if struct.unpack_from(">I", base_j, jsb_off + 0x1C)[0] == 0:
+        return recipe, ["debugfs did not leave a journal to recover (s_start = 0)"], {"events": 0, "segment": 0, "crash_runs": 0, "verdict": "-", "ntx": 0}, []
+    rcmd = [T("e2fsck/e2fsck"), "-fy", "-E", "journal_only", "-j", jimg, fsimg]
+    rc, out, ev = e2v.traced(rcmd, fsimg, fsimg + ".trace", env=env, watch2=jimg)
+    final_fs = open(fsimg, "rb").read()
+    final = {t: final_fs[t * bs:(t + 1) * bs] for t in targets}
+    problems = []
+    if rc & ~3:
+        problems.append("uninterrupted recovery exits %d: %s" % (rc, out[-200:]))
+    if all(final[t] == base_fs[t * bs:(t + 1) * bs] for t in targets):
+        problems.append("recovery changed none of the journalled blocks")
+    reset = next((i for i, e in enumerate(ev) if e[0] == "w" and e[1] == jsb_off and len(e[2]) >= 0x20 and struct.unpack_from(">I", e[2], 0x1C)[0] == 0), None)
+    if reset is None:
+        problems.append("journal reset (s_start = 0) not found in the write trace of the journal device")
+    else:
+        tw = [i for i, e in enumerate(ev[:reset]) if e[0] == "W" and e[1] // bs in targets]
+        if not tw:
+            problems.append("no replayed block reaches the filesystem file before the journal is marked empty")
+        elif not any(e[0] == "F" for e in ev[max(tw) + 1:reset]):
+            problems.append("the journal device's superblock is reset (s_start=0) with no fsync of the filesystem file after the last replayed block")
+        if any(e[0] == "W" and e[1] // bs in targets for e in ev[reset + 1:]):
+            problems.append("a replayed block is written after the journal was marked empty")
+    seg_end = len(ev)
+    ks = list(range(1, seg_end + 1))
+    if tier == "quick" and len(ks) > 12:
+        around = [k for k in ks if reset is not None and abs(k - 1 - reset) <= 3]
+        ks = sorted(set(ks[:4] + around + r.sample(ks, 4)))
+    runs = 0
+    cf, cj = os.path.join(WORK, "x%d_cfs.img" % idx), os.path.join(WORK, "x%d_cj.img" % idx)
+    ccmd = [T("e2fsck/e2fsck"), "-fy", "-E", "journal_only", "-j", cj, cf]
+    for k in ks:
+        if problems:
+            break
+        for label, dfs, dj in two_file_crash_states(base_fs, base_j, ev, k):
+            open(cf, "wb").write(dfs)
+            open(cj, "wb").write(dj)
+            rc2, out2 = e2v.sh(ccmd, env=env, timeout=120)
+            runs += 1
+            o = open(cf, "rb").read()
+            oj = open(cj, "rb").read()
+            why = None
+            if rc2 == -9:
+                why = "e2fsck timed out on the crash state"
+            elif rc2 & ~3:
+                why = "e2fsck exit %d on the crash state" % rc2
+            elif any(o[t * bs:(t + 1) * bs] != final[t] for t in targets):
+                why = "re-run recovery gives different block contents than the uninterrupted run"
+            elif struct.unpack_from(">I", oj, jsb_off + 0x1C)[0] != 0 or struct.unpack_from("<I", o, 1024 + 0x60)[0] & extfmt.INCOMPAT_RECOVER:
+                why = "journal not empty / needs_recovery set after re-running recovery"
+            if why:
+                problems.append("crash after event %d (%s): %s" % (k, label, why))
+                break
+    for p in [fsimg, jimg, cf, cj, fsimg + ".trace"] + [os.path.join(WORK, "x%d_data%d" % (idx, t)) for t in range(ntx)]:
+        if os.path.exists(p):
+            os.unlink(p)
+    return recipe, problems, {"events": len(ev), "segment": seg_end, "crash_runs": runs, "verdict": "-", "ntx": len(txd)}, \
+        [(e[0], e[1] // bs if e[0] in "Ww" else None) for e in ev[:60]]
+
+
 def run(res, replay=None):
     tier, seed = res.tier, res.seed
     os.makedirs(WORK, exist_ok=True)
@@ -157,9 +318,10 @@ def run(res, replay=None):
     res.cov["partial"] = ["device caches / barriers below fsync are represented only by the assumption above",
                           "crash points are enumerated on generated journals (all prefixes of the recovery segment in the thorough tier); the theorem covers every journal for the model"]
     n = 8 if tier == "quick" else 200
-    idxs = [json.load(open(replay))["case_index"]] if replay else list(range(n))
+    nx = 3 if tier == "quick" else 60           # external-journal cases carry indices 100000+
+    idxs = [json.load(open(replay))["case_index"]] if replay else list(range(n)) + [100000 + i for i in range(nx)]
     with concurrent.futures.ThreadPoolExecutor(8) as ex:
-        outs = list(ex.map(lambda i: one_journal(src, mexe, i, seed, tier), idxs))
+        outs = list(ex.map(lambda i: ext_journal_case(src, i, seed, tier) if i >= 100000 else one_journal(src, mexe, i, seed, tier), idxs))
     bad = []
     tot_runs = 0
     for i, (recipe, problems, stat, shape) in zip(idxs, outs):
@@ -173,7 +335,7 @@ def run(res, replay=None):
     res.cov["correspondence"] = {"journals": len(idxs), "crash_reruns": tot_runs, "mismatches": len(bad),
                                  "compared": "order of replay writes / fsync / journal reset / needs_recovery clearing in the real write trace vs the model protocol; blocks before the reset vs model; every enumerated crash image re-recovered vs the uninterrupted result"}
     res.cov["oracle"] = {"evaluations": tot_runs, "failures": len(bad)}
-    res.cov["rule"] = ("journals as in C03 (at least one transaction); for every prefix of the recovery segment of the real e2fsck write trace (sampled in the quick tier) the unflushed writes are {all kept, all lost, each one lost, reversed}; "
+    res.cov["rule"] = ("journals as in C03 (at least one transaction), plus filesystems with an EXTERNAL journal device written by debugfs jo/jw/jc (two files, two flush domains: the filesystem file's unflushed writes may be lost while the journal file's are kept, and vice versa); for every prefix of the recovery segment of the real e2fsck write trace (sampled in the quick tier) the unflushed writes are {all kept, all lost, each one lost, reversed}; "
                        "distinct = journal recipe; non-trivial = at least one transaction")
     res.add_obligation("trace protocol and crash re-runs agree on all journals", not bad)
     for i, recipe, problems in bad[:3]:
